@@ -13,9 +13,9 @@ KINDS = ['step started', 'step ended', 'event consumed', 'event sent', 'state ex
          'transition processed', 'n0', 'n1', 'n2']
 
 
-def property_chart(kinds, k):
+def property_chart(kinds, k, name='prop'):
     """becomes final at the k-th meta-event among `kinds`; stores the time it sees"""
-    sc = Statechart('prop', preamble='n = 0\nseen = -1\nhits = 0')
+    sc = Statechart(name, preamble='n = 0\nseen = -1\nhits = 0')
     sc.add_state(CompoundState('p', initial='w'), None)
     sc.add_state(BasicState('w'), 'p')
     sc.add_state(FinalState('f'), 'p')
@@ -73,7 +73,9 @@ class C10(InterpProp):
             '≥30 meta-events were delivered without firing')
 
     def knobs(self, rnd, tier):
-        return gen.Knobs(sends=0.5, max_states=rnd.choice([5, 9, 13]))
+        return gen.Knobs(sends=0.5, max_states=rnd.choice([5, 9, 13]), contracts=rnd.choice([0.0, 0.0, 0.5]), sent_conds=0.4)
+
+    NAMES = ('prop', 'prop', 'every {request} is answered', 'no {} left', 'G(a -> F{0})')
 
     def gen_case(self, rnd, tier):
         kn = self.knobs(rnd, tier)
@@ -81,7 +83,7 @@ class C10(InterpProp):
         sc = g.build()
         kinds = rnd.sample(KINDS, rnd.randint(1, 4))
         k = rnd.choice([1, 2, 3, 5, 8, 13, 21, 40, 80, 1000])
-        prop = property_chart(kinds, k)
+        prop = property_chart(kinds, k, rnd.choice(self.NAMES))
         e1, e2 = ChartEnc(sc), ChartEnc(prop)
         ops1 = gen.gen_ops(rnd, kn, self.n_ops)
         ign = rnd.random() < 0.25        # the monitored interpreter may well ignore contracts
@@ -122,6 +124,14 @@ class C10(InterpProp):
             metas = oracles.meta_effects(ra['eff'])
             cb = a['world']['callbacks']
             if ra['outcome'] == 'error' and ra['err']['class'] != 'PropertyStatechartError':
+                # another exception: unless it is raised exactly where the property statechart becomes final
+                c2 = count
+                for j, m in enumerate(metas):
+                    if m['ev'] in kinds:
+                        c2 += 1
+                        if c2 == kk and j == len(metas) - 1 and ra['eff'] and ra['eff'][-1][0] == 'meta':
+                            res.violations.append('op %d: the call delivering the %d-th listened meta-event raised %s, not '
+                                                  'PropertyStatechartError' % (i, kk, ra['err']))
                 clean = False
                 continue
             # within one micro step the events are sent (and announced) in the order of the code that sends them
